@@ -90,3 +90,13 @@ chk("C07", "exploration", "property-based testing (Hypothesis): generated start/
     "player instances equal the snapshot taken before any mode ran. Search, not proof.",
     "Non-game modes only; liveness bounded (waits <= 60 ms, 3 s quiet); registries compared by owner/function/priority/kwargs keys.",
     "DESIGN.md §4 C07")
+chk("C06", "exploration", "property-based testing (Hypothesis): generated game histories vs. a trace acceptor for the lifecycle grammar with player/ball numbering",
+    "Generated histories (start presses, drains through the ball_drain relay with a generated ball save, added balls, "
+    "extra-ball awards, end_ball/end_game/slam-tilt requests, requests aimed at turn transitions, several games) run on the "
+    "real game mode with faked ball hardware and waiting handlers of generated delays on every lifecycle queue event. The "
+    "recorded event sequence must be accepted by the statement's grammar (nesting, turn order, ball numbers <= "
+    "balls_per_game, one ball plus awarded extra balls per turn, end only after the last turn or a request), balls in "
+    "play stays within [0, balls known], a ball ends iff zero balls or a request (bounded), and after game_ended no game "
+    "is active and a new one starts. Search, not proof.",
+    "Ball hardware faked as in MpfFakeGameTestCase; waits <= 80 ms; tilt requests only while a ball is in progress.",
+    "DESIGN.md §4 C06")
